@@ -182,14 +182,22 @@ impl<'a> Ref<'a> {
             Decl::Custom { width, .. } => width.map(|w| w as u64 / 8),
             Decl::Checksum { width, .. } => Some(*width as u64 / 8),
             Decl::Group { .. } => None,
-            Decl::Record { parent, .. } => {
-                if parent.is_some() {
-                    return None;
-                }
-                let fl = self.flat(ty);
+            Decl::Record { .. } => {
+                // whole image: every level's own fields; the payload of every level but the last is
+                // the next level, the last level must have none
+                let fl = self.d.flat(ty).ok()?;
                 let mut bits = 0u64;
-                for f in &fl.levels[0].fields {
-                    bits = bits.checked_add(self.field_static_bits(f)?)?;
+                let n = fl.levels.len();
+                for (i, l) in fl.levels.iter().enumerate() {
+                    for f in &l.fields {
+                        if let FK::Payload { .. } = f.k {
+                            if i + 1 == n {
+                                return None;
+                            }
+                            continue;
+                        }
+                        bits = bits.checked_add(self.field_static_bits(f)?)?;
+                    }
                 }
                 Some(bits / 8)
             }
@@ -622,6 +630,17 @@ impl<'a> Ref<'a> {
                     Ok((json!(self.bytes_int(&b[..n])), n))
                 }
                 Some(TyKind::Struct) => {
+                    // a derived struct of constant size is cut out of the span by its size (its root's
+                    // payload has no delimiter of its own)
+                    let derived = matches!(self.d.get(t), Some(Decl::Record { parent: Some(_), .. }));
+                    if let (true, Some(n)) = (derived, self.ty_static(t)) {
+                        let n = n as usize;
+                        if b.len() < n {
+                            return Err(DecErr::Length);
+                        }
+                        let (v, _) = self.decode(t, &b[..n], true, ev)?;
+                        return Ok((v, n));
+                    }
                     let (v, rest) = self.decode(t, b, false, ev)?;
                     Ok((v, b.len() - rest))
                 }
